@@ -36,7 +36,7 @@ pub fn check(tier: Tier) -> Check {
         also_rel: true,
         property: "C03",
         level: "model_checking",
-        rule: "(S1) every 2- and 3-packet sequence over {PINGRESP, short PUBACK, SUBACK, inbound PUBLISH QoS 0/1 with a small payload} up to the stated total length x all 2^(n-1) compositions of the byte stream into reads x {all chunks immediately available, Pending between chunks}; (S1') the same for shorter streams on the second connection of a Context whose first connection ended three bytes into a packet / with a failed acknowledgement write and a further packet already read; (S1e) every 1-2-packet stream up to a small total length cut short after every prefix by end-of-stream / read error, under every composition of the prefix; (S2) PUBLISH packets of 126..131, 510..516, 1022..1028, 1534..1540, 2046..2052, 4096, 16383..16390 bytes (quick: 127..129, 511..514, 1023..1026, 1536, 2047..2050, 16384..16386; thorough also 70000; a 2097160-byte packet (four-byte remaining length) with every single cut (thorough: every pair of cuts) near the interesting offsets) preceded by 0-2 small packets x {every single cut, every pair of cuts within +-3 of packet boundaries and multiples of 512, every uniform chunk size 1..=40 and 511..513, 1023..1025} x both reader modes; (S3) a stream of seven packets (a lead-in PUBLISH whose size takes every value in a window of 48 (thorough: 80) consecutive sizes - and, for the deliveries in one read or in chunks of >= 255 bytes, in a window of 1100 (thorough: 2200) -, then PUBLISH packets of about 700, 200, 118, 20, 30 and 620 bytes), so that every later packet boundary - and with it the start of a fixed header and of a multi-byte remaining length - falls on every alignment against the 512-byte read step and the 1024-byte allocation, delivered in one read, under every single cut near packet boundaries and multiples of 256 (thorough: every single cut) and in uniform chunks of 1, 2, 3, 5, 7, 64, 255, 256, 257, 511, 512, 513, 1019, 1024 bytes, both reader modes; (S5) bursts of 33, 65, 129, 257, 1025 (thorough: up to 16385) small packets (QoS 0 to a stream, QoS 1 to a stream, mixed without a stream) in one read, in 512-byte reads and in one read per packet, all available at once, optionally followed by end-of-stream; (S6) after a big packet (9 000 / 70 000 / 1 100 000 bytes, thorough also 300 000 / 2 100 000; retained by a stream or not) delivered in fragments of 1000 / 4096 bytes / whole, the read that completes it also carries 0 / 1 / 2 / 3 / all bytes of the next packet (one- and two-byte remaining length), then nothing / a spurious poll of the context task / a request of another caller, then the rest and one more packet; (S4) hand-over from connect() to run(): the read that carries the CONNACK also carries the first k bytes (every k near both ends, every 97th in between) of six following packet sequences, the rest arrives once run() is served; run in the overflow-checked and the wrapping-arithmetic build; oracle: reference framing at every quiescent point, no unread visible bytes at quiescence, no end-of-stream before the transport's, no zero-length read; non-trivial = a packet was split across reads".into(),
+        rule: "(S1) every 2- and 3-packet sequence over {PINGRESP, short PUBACK, SUBACK, inbound PUBLISH QoS 0/1 with a small payload} up to the stated total length x all 2^(n-1) compositions of the byte stream into reads x {all chunks immediately available, Pending between chunks}; (S1') the same for shorter streams on the second connection of a Context whose first connection ended three bytes into a packet / with a failed acknowledgement write and a further packet already read; (S1e) every 1-2-packet stream up to a small total length cut short after every prefix by end-of-stream / read error, under every composition of the prefix; (S2) PUBLISH packets of 126..131, 510..516, 1022..1028, 1534..1540, 2046..2052, 4096, 16383..16390 bytes (quick: 127..129, 511..514, 1023..1026, 1536, 2047..2050, 16384..16386; thorough also 70000; a 2097160-byte packet (four-byte remaining length) with every single cut (thorough: every pair of cuts) near the interesting offsets) preceded by 0-2 small packets x {every single cut, every pair of cuts within +-3 of packet boundaries and multiples of 512, every uniform chunk size 1..=40 and 511..513, 1023..1025} x both reader modes; (S3) a stream of seven packets (a lead-in PUBLISH whose size takes every value in a window of 48 (thorough: 80) consecutive sizes - and, for the deliveries in one read or in chunks of >= 255 bytes, in a window of 1100 (thorough: 2200) -, then PUBLISH packets of about 700, 200, 118, 20, 30 and 620 bytes), so that every later packet boundary - and with it the start of a fixed header and of a multi-byte remaining length - falls on every alignment against the 512-byte read step and the 1024-byte allocation, delivered in one read, under every single cut near packet boundaries and multiples of 256 (thorough: every single cut) and in uniform chunks of 1, 2, 3, 5, 7, 64, 255, 256, 257, 511, 512, 513, 1019, 1024 bytes, both reader modes; (S5) bursts of 33, 65, 129, 257, 1025 (thorough: up to 16385) small packets (QoS 0 to a stream, QoS 1 to a stream, mixed without a stream) in one read, in 512-byte reads and in one read per packet, all available at once, optionally followed by end-of-stream; (S6) after a big packet (9 000 / 70 000 / 1 100 000 bytes, thorough also 300 000 / 2 100 000; retained by a stream or not) delivered in fragments of 1000 / 4096 bytes / whole, the read that completes it also carries 0 / 1 / 2 / 3 / all bytes of the next packet (one- and two-byte remaining length), then nothing / a spurious poll of the context task / a request of another caller, then the rest and one more packet; (S4) hand-over from connect() to run(): the read that carries the CONNACK also carries the first k bytes (every k near both ends, every 97th in between) of six following packet sequences, the rest arrives once run() is served; run in the overflow-checked and the wrapping-arithmetic build; oracle: reference framing at every quiescent point, no unread visible bytes at quiescence, no end-of-stream before the transport's, no zero-length read; big packets whose length, or the part outstanding at a cut, is 2^k +- 1 for k = 9..21 (thorough 23), also 512 / 1024 bytes beyond (C03/pow2); bursts of up to 8193 (thorough 65537) packets; bytes behind the CONNACK also on a resumed session and with the client's own limits announced; non-trivial = a packet was split across reads".into(),
         assumptions: vec!["packets are well-formed (malformed input is C04)".into()],
         parts,
     }
